@@ -22,6 +22,18 @@ def construct(fn, *args, **kwargs):
         raise Refused(f"{type(e).__name__}: {e}") from e
 
 
+def must_accept(prop, what, fn, *args, **kwargs):
+    """A constructor / configuration call on parameters that lie inside the domain the property
+    quantifies over: a refusal means the property cannot hold there."""
+    from .core import Violation
+    try:
+        return fn(*args, **kwargs)
+    except (ValueError, TypeError) as e:
+        raise Violation(prop, "configuration-inside-the-stated-domain-refused", 0,
+                        f"{what}: {type(e).__name__}: {str(e)[:160]}",
+                        key=f"refused:{what.split('(')[0]}") from e
+
+
 def make_top(*components):
     """A top module that always has a `sync` domain (a free-running counter)."""
     m = Module()
